@@ -6,7 +6,8 @@
    SimplePoint dispatch, serialisation and the polygon approximation are checked
    on every run by flags; point decisions of sampled cases are certified by
    interval arithmetic against the model. *)
-From Coq Require Import Reals.
+From Coq Require Import Reals Lra.
+From Interval Require Import Tactic.
 From GJ Require Import Sphere SphereRect SphereTriangle.
 Open Scope R_scope.
 
@@ -35,6 +36,15 @@ Theorem C13_circles_meet_only_if_close : forall latA lonA rA latB lonB rB plat p
   circle_contains_point latA lonA rA plat plon -> circle_contains_point latB lonB rB plat plon ->
   distance_to latA lonA latB lonB <= rA + rB.
 Proof. exact circles_meet_only_if_close. Qed.
+
+(* non-vacuity: concentric circles of 3 km and 1 km, the common centre as the point *)
+Example C13_circle_hypotheses_hold_somewhere : lat_ok 10 /\ 0 <= 1000 <= piR /\ 0 <= 3000 <= piR /\ distance_to 10 20 10 20 + 1000 <= 3000 /\ circle_contains_point 10 20 1000 10 20.
+Proof.
+  assert (P : 3000 <= piR) by (unfold piR, Rearth; interval).
+  unfold lat_ok. rewrite distance_refl. unfold circle_contains_point. rewrite hav_refl.
+  repeat split; try lra. unfold dist_to_hav. cbv zeta. nra.
+Qed.
+
 
 Print Assumptions C13_contains_point_iff_distance.
 Print Assumptions C13_circle_contains_circle_sound.
